@@ -38,6 +38,13 @@ type tfraT struct {
 	offs  []uint64
 }
 
+type trakT struct {
+	id        uint32
+	handler   int // 0 vide 1 soun 2 other
+	timescale uint32
+	trex      bool
+}
+
 type trafT struct {
 	track uint32
 	base  uint64
@@ -57,6 +64,7 @@ type elem struct {
 	tfras   []tfraT
 	mfro    bool
 	trafs   []trafT
+	traks   []trakT
 	seg     int // intended segment (styp/sidx-in-segment/emsg/moof/mdat), -1 otherwise
 	frag    int // intended fragment within the file (emsg/moof/mdat), -1 otherwise
 	pos     uint64
@@ -153,6 +161,18 @@ func refTrackOf(tracks, order int) (id uint32, timescale uint32) {
 		}
 	}
 	return 1, 1000
+}
+
+func traksOf(tracks, order int) []trakT {
+	var ts []trakT
+	for i := 0; i < tracks; i++ {
+		h := 1
+		if kindOrders[order][i%3] == "video" {
+			h = 0
+		}
+		ts = append(ts, trakT{id: uint32(i + 1), handler: h, timescale: uint32(1000 * (i + 1)), trex: true})
+	}
+	return ts
 }
 
 func mkInit(tracks int, progressive bool, uniq uint32) (ftyp, moov []byte) {
@@ -324,8 +344,8 @@ func hexN(v uint64) string { return hx.HexU(v) }
 
 func (e *elem) describe(cls int) string {
 	var sb strings.Builder
-	fmt.Fprintf(&sb, "%c,%s,%s,%s,%d,%d,%d", e.kind, hexN(uint64(len(e.data))), hexN(uint64(e.hdr)), hexN(e.fo),
-		b2i(e.stts), b2i(e.mfro), cls)
+	fmt.Fprintf(&sb, "%c,%s,%s,%s,%d,%d,%d,%d", e.kind, hexN(uint64(len(e.data))), hexN(uint64(e.hdr)), hexN(e.fo),
+		b2i(e.stts), b2i(e.mfro), cls, e.version)
 	sb.WriteByte('|')
 	for i, r := range e.refs {
 		if i > 0 {
@@ -363,6 +383,13 @@ func (e *elem) describe(cls int) string {
 				sb.WriteString(hexN(uint64(d)))
 			}
 		}
+	}
+	sb.WriteByte('|')
+	for i, t := range e.traks {
+		if i > 0 {
+			sb.WriteByte('+')
+		}
+		fmt.Fprintf(&sb, "%s:%d:%s:%d", hexN(uint64(t.id)), t.handler, hexN(uint64(t.timescale)), b2i(t.trex))
 	}
 	return sb.String()
 }
@@ -603,7 +630,7 @@ func (g *gen) structured(nseg, nfrag, tracks int, delim string, emsg, sameFragCo
 	order := g.r.Intn(3)
 	l.refTrack, l.refTimescale = refTrackOf(tracks, order)
 	ft, mv := mkInitOrder(tracks, false, g.u(), order)
-	l.els = append(l.els, &elem{kind: 'f', data: ft, seg: -1, frag: -1}, &elem{kind: 'v', data: mv, stts: true, seg: -1, frag: -1})
+	l.els = append(l.els, &elem{kind: 'f', data: ft, seg: -1, frag: -1}, &elem{kind: 'v', data: mv, stts: true, traks: traksOf(tracks, order), seg: -1, frag: -1})
 	base := make([]uint64, tracks)
 	if nz {
 		for t := range base {
@@ -773,10 +800,10 @@ func (g *gen) letter(a *alpha, c byte, sizes []int) *elem {
 		return &elem{kind: 'f', data: ft, seg: -1, frag: -1}
 	case 'v':
 		_, mv := mkInit(1, false, g.u())
-		return &elem{kind: 'v', data: mv, stts: true, seg: -1, frag: -1}
+		return &elem{kind: 'v', data: mv, stts: true, traks: traksOf(1, 0), seg: -1, frag: -1}
 	case 'p': // progressive moov
 		_, mv := mkInit(1, true, g.u())
-		return &elem{kind: 'v', data: mv, stts: false, seg: -1, frag: -1}
+		return &elem{kind: 'v', data: mv, stts: false, traks: traksOf(1, 0), seg: -1, frag: -1}
 	case 's':
 		return &elem{kind: 's', data: mkStyp(g.u()), seg: -1, frag: -1}
 	case 'e':
@@ -958,10 +985,88 @@ func (g *gen) random(a *alpha) *layout {
 
 // ---------------------------------------------------------------- corr
 
+var uCounter int
+
 func emitCase(id string, l *layout) {
 	data := l.bytes()
 	o := observe(l, data)
-	fmt.Fprintf(out, "A\t%s\t%d%d\t%s\t%s\t%s\t%s\n", id, b2i(l.ism), b2i(l.som), l.describe(), o.class, orDash(o.part), orDash(o.enc))
+	desc := l.describe()
+	fmt.Fprintf(out, "A\t%s\t%d%d\t%s\t%s\t%s\t%s\n", id, b2i(l.ism), b2i(l.som), desc, o.class, orDash(o.part), orDash(o.enc))
+	if o.class != "ok" {
+		return
+	}
+	// UpdateSidx + encode on a fresh decode; the (add, nonZeroEPT) pair rotates
+	uCounter++
+	add, nz := uCounter%4 != 3, uCounter%2 == 0
+	fmt.Fprintf(out, "U\t%s\t%d%d\t%s\t%d%d\t%s\n", id, b2i(l.ism), b2i(l.som), desc, b2i(add), b2i(nz), observeUpdate(l, data, add, nz))
+}
+
+func observeUpdate(l *layout, data []byte, add, nz bool) string {
+	f, class := decodeLayout(l, data)
+	if class != "ok" {
+		return "decode-" + class
+	}
+	orig := make(map[mp4.Box]int)
+	for i, c := range f.Children {
+		orig[c] = i
+	}
+	var err error
+	p := hx.Try(func() { err = f.UpdateSidx(add, nz) })
+	if p != "" {
+		return "panic"
+	}
+	if err != nil {
+		return "err"
+	}
+	var sb strings.Builder
+	sb.WriteString("ok;")
+	if f.Sidx == nil {
+		sb.WriteString("nosidx;")
+	} else {
+		sx := f.Sidx
+		fmt.Fprintf(&sb, "%d,%s,%s,%s,%s,", sx.Version, hexN(uint64(sx.ReferenceID)), hexN(uint64(sx.Timescale)), hexN(sx.EarliestPresentationTime), hexN(sx.FirstOffset))
+		for i, r := range sx.SidxRefs {
+			if i > 0 {
+				sb.WriteByte('+')
+			}
+			fmt.Fprintf(&sb, "%d:%s:%s", r.ReferenceType, hexN(uint64(r.ReferencedSize)), hexN(uint64(r.SubSegmentDuration)))
+		}
+		sb.WriteByte(';')
+	}
+	// children: original indices, N for a box that was not there before
+	for i, c := range f.Children {
+		if i > 0 {
+			sb.WriteByte(',')
+		}
+		if t, ok := orig[c]; ok {
+			sb.WriteString(strconv.Itoa(t))
+		} else {
+			sb.WriteByte('N')
+		}
+	}
+	sb.WriteByte(';')
+	var buf bytes.Buffer
+	p = hx.Try(func() { err = f.Encode(&buf) })
+	switch {
+	case p != "":
+		sb.WriteString("panic")
+	case err != nil:
+		sb.WriteString("err")
+	default:
+		scanned, ok := scanTop(buf.Bytes())
+		if !ok {
+			sb.WriteString("unscannable")
+			break
+		}
+		sb.WriteString("ok:")
+		for i, b := range scanned {
+			if i > 0 {
+				sb.WriteByte(',')
+			}
+			fmt.Fprintf(&sb, "%c%s", kindOf(b.typ), hexN(b.size))
+		}
+	}
+	return sb.String()
 }
 
 func orDash(s string) string {
